@@ -76,3 +76,14 @@ package gzip
 //@   requires accessAdmitted && authAccepted && lastLookup != nil && accessTarget == lastLookup
 //@   assigns *
 //@   ensures upstreamCalls == old(upstreamCalls) + 1
+//@
+//@ // the compressing writer's protocol (decide once, before the first status or body byte reaches the client) is
+//@ // specified method by method: every method of the type has to be under contract
+//@ shared complete GzipResponseWriter props C17
+//@
+//@ func (*GzipResponseWriter).Hijack
+//@   props C17
+//@   requires grw != nil
+//@   assigns nothing
+//@   // taking over the connection sends nothing through the writer: no status, no header decision, no body byte
+//@   ensures lastStatus == old(lastStatus) && statusWrites == old(statusWrites)
